@@ -581,6 +581,7 @@ func init() {
 	vp("Ite", func(e *Exec, _ *frame, a []Value) Value {
 		return e.tb.Ite(a[0].(*Term), a[1].(*Term), a[2].(*Term))
 	})
+	vp("SymbolicAddrs", func(e *Exec, _ *frame, a []Value) Value { e.symAddrs = e.concBool(a[0]); return nil })
 	vp("Symbolic", func(e *Exec, _ *frame, a []Value) Value { return e.tb.Bool(true) })
 	vp("Note", func(e *Exec, _ *frame, a []Value) Value { e.notes = append(e.notes, e.argStr(a[0])); return nil })
 
